@@ -15,7 +15,10 @@
 //!
 //! `c08` (cases on stdin)
 //!     in : path <TAB> kind(0..5 = Acct AcctV3 Lastlog Lastlogx Utmp Utmpx) <TAB> blocksz
-//!          <TAB> after <TAB> before          (after/before: `-` or `<sec>.<usec>`)
+//!          <TAB> after <TAB> before [<TAB> R]   (after/before: `-` or `<sec>.<usec>`;
+//!          R: append `:<hex of FixedStruct::as_bytes>` to every entry)
+//!          an entry for which process_entry_at returns Err((Some(next), _)) is written `E<fo>`
+//!          (the driver loop continues at `next`), Err((None, _)) as `E<fo>!` (the loop ends)
 //!     out: `OK <type> <fo>:<sec>:<usec>:<dsec>:<dusec> ...` entries in the order the driver loop of
 //!          exec_fixedstructprocessor obtains them; sec/usec = FixedStruct::tv_pair(),
 //!          dsec/dusec = this binary's own decoder applied to the file bytes at fo
@@ -27,7 +30,7 @@ use s4lib::common::{FileOffset, FileType, FileTypeArchive, FileTypeFixedStruct, 
 use s4lib::data::datetime::DateTimeLOpt;
 use s4lib::data::fixedstruct::{
     freebsd_x8664, linux_arm64aarch64, linux_x86, netbsd_x8632, netbsd_x8664, openbsd_x86,
-    FixedStructType, ENTRY_SZ_MAX, ENTRY_SZ_MIN, TIMEVAL_SZ_MAX,
+    FixedStructType, InfoAsBytes, ENTRY_SZ_MAX, ENTRY_SZ_MIN, TIMEVAL_SZ_MAX,
 };
 use s4lib::readers::fixedstructreader::{FixedStructReader, ResultFixedStructReaderNew};
 use s4verif::*;
@@ -104,6 +107,7 @@ fn fields(t: FixedStructType) -> Vec<String> {
             f!("ut_id", "c", linux_arm64aarch64::utmpx, ut_id),
             f!("ut_user", "c", linux_arm64aarch64::utmpx, ut_user),
             f!("ut_host", "c", linux_arm64aarch64::utmpx, ut_host),
+            f!("ut_exit", "i", linux_arm64aarch64::utmpx, ut_exit),
             f!("ut_tv", "t", linux_arm64aarch64::utmpx, ut_tv),
         ],
         FixedStructType::Fs_Linux_x86_Acct => vec![
@@ -139,6 +143,10 @@ fn fields(t: FixedStructType) -> Vec<String> {
             f!("ut_id", "c", linux_x86::utmpx, ut_id),
             f!("ut_user", "c", linux_x86::utmpx, ut_user),
             f!("ut_host", "c", linux_x86::utmpx, ut_host),
+            {
+                let r = span_of!(linux_x86::utmpx, ut_exit);
+                format!("e_termination:i:{}:2,e_exit:i:{}:2", r.start, r.start + 2)
+            },
             f!("ut_session", "i", linux_x86::utmpx, ut_session),
             f!("ut_xtime", "t", linux_x86::utmpx, ut_tv),
         ],
@@ -322,6 +330,7 @@ fn run_case(line: &str) -> String {
     let bs: u64 = v[2].parse().unwrap();
     let a = bound(v[3]);
     let b = bound(v[4]);
+    let render = v.len() > 5 && v[5] == "R";
     let data = std::fs::read(&path).unwrap_or_default();
     let tz = FixedOffset::east_opt(0).unwrap();
     let mut r = match FixedStructReader::new(path.clone(), ft, bs, tz, a, b) {
@@ -356,14 +365,27 @@ fn run_case(line: &str) -> String {
                 let p = fs.tv_pair();
                 let (ds, du) = if at + sz <= data.len() { own_decode(t, &data[at..at + sz]) } else { (-1, -1) };
                 out += &format!(" {}:{}:{}:{}:{}", at, p.0, p.1, ds, du);
+                if render {
+                    let mut rb = vec![0u8; 4096];
+                    let n = match fs.as_bytes(&mut rb) {
+                        InfoAsBytes::Ok(n, _, _) => n,
+                        InfoAsBytes::Fail(n) => n,
+                    };
+                    out += &format!(":{}", hex(&rb[..n]));
+                }
                 fo_
             }
             ResultS3::Done => break,
             ResultS3::Err((fo_opt, _e)) => {
-                out += &format!(" E{}", fo);
                 match fo_opt {
-                    Some(fo_) => fo_,
-                    None => break,
+                    Some(fo_) => {
+                        out += &format!(" E{}", fo);
+                        fo_
+                    }
+                    None => {
+                        out += &format!(" E{}!", fo);
+                        break;
+                    }
                 }
             }
         };
